@@ -189,7 +189,18 @@ def scan_global_writes(f):
                     if isinstance(b,(ast.Assign,ast.AnnAssign)) and b.value is not None:
                         v=b.value
                         if isinstance(v,(ast.List,ast.Dict,ast.Set,ast.ListComp,ast.DictComp,ast.SetComp)) or (isinstance(v,ast.Call) and ast.unparse(v.func) in ("list","dict","set","defaultdict","OrderedDict","collections.defaultdict","collections.OrderedDict","deque","collections.deque")):
-                            out.append((prefix+n.name,"class-level mutable "+ast.unparse(b)[:60],b.lineno))
+                            # a class-level container is shared state only if something writes into it at call time:
+                            # <expr>.<name>.<mutating method>(...), <expr>.<name>[...] = ..., <expr>.<name> op= ...
+                            names=[t.id for t in (b.targets if isinstance(b,ast.Assign) else [b.target]) if isinstance(t,ast.Name)]
+                            written=False
+                            for m in ast.walk(tree):
+                                if isinstance(m,ast.Call) and isinstance(m.func,ast.Attribute) and m.func.attr in MUT and isinstance(m.func.value,ast.Attribute) and m.func.value.attr in names: written=True
+                                if isinstance(m,(ast.Assign,ast.AugAssign,ast.Delete)):
+                                    for t in (m.targets if isinstance(m,(ast.Assign,ast.Delete)) else [m.target]):
+                                        if isinstance(t,ast.Subscript) and isinstance(t.value,ast.Attribute) and t.value.attr in names: written=True
+                                        if isinstance(m,ast.AugAssign) and isinstance(t,ast.Attribute) and t.attr in names: written=True
+                            if written:
+                                out.append((prefix+n.name,"class-level mutable "+ast.unparse(b)[:60],b.lineno))
                 visit(n.body, prefix+n.name+".")
     visit(tree.body,"")
     return out
